@@ -20,7 +20,7 @@ pub static DEF: PropDef = PropDef {
     real: &["parser + compiler of `contains` (EmptySearcher / MemchrSearcher / Avx2Searcher<[u8;N]> / boxed Avx2Searcher / MemmemSearcher)", "sliceslice AVX2 search (native)", "USE_AVX2 LazyLock latch incl. the WIREFILTER_USE_AVX2 environment switch", "Filter::execute"],
     stub: &["the random anchor draw (forced by the tape in 3 of 4 runs; observed and recorded in the 4th)", "thread scheduler for the runs that compile inside tasks"],
     assumptions: &["naive windows search is the reference", "this machine has AVX2 (reported per worker in the evidence); on a machine without it both worker groups take the scalar path"],
-    required_probes: &["c10.exec", "c10.hit", "c10.miss", "c10.observe_runs", "c10.compile_in_task", "c10.via_each", "c10.via_fn", "c10.straddle", "c10.nearmiss"],
+    required_probes: &["c10.exec", "c10.hit", "c10.miss", "c10.observe_runs", "c10.compile_in_task", "c10.via_each", "c10.via_fn", "c10.straddle", "c10.nearmiss", "c10.prefix_at_end"],
     extra: None,
 };
 
@@ -76,13 +76,15 @@ fn gen_alpha_byte(alpha: usize) -> u8 {
     match alpha {
         0 => b"ab"[choose(2, "al.b")],
         1 => b'a' + choose(26, "al.b") as u8,
+        // the bytes padding and sentinels are made of
+        3 => [0x00u8, b'a', 0xff][choose(3, "al.b")],
         _ => choose(256, "al.b") as u8,
     }
 }
 
 fn gen_haystack(alpha: usize, needle: &[u8], anchor_hint: usize) -> (Vec<u8>, &'static str) {
     let l = needle.len();
-    let class = choose_w(&[3, 2, 2, 4, 1, 4, 2, 1], "hay.class");
+    let class = choose_w(&[3, 2, 2, 4, 1, 4, 2, 1, 3], "hay.class");
     let base_len = match choose_w(&[1, 2, 3, 3, 2], "hay.lenclass") {
         0 => choose(4, "hay.len"),
         1 => range(4, 17, "hay.len"),
@@ -154,6 +156,15 @@ fn gen_haystack(alpha: usize, needle: &[u8], anchor_hint: usize) -> (Vec<u8>, &'
             }
             "repeated-prefix"
         }
+        8 => {
+            // the haystack ENDS with a proper prefix of the needle (whatever lies beyond the end must not complete it)
+            if l > 1 {
+                let keep = 1 + choose(l - 1, "hay.prefix_len");
+                h.extend_from_slice(&needle[..keep]);
+            }
+            kernel::count("c10.prefix_at_end");
+            "needle-prefix-at-the-end"
+        }
         _ => {
             let p = choose(h.len() + 1, "hay.mid_pos");
             place(&mut h, p, needle);
@@ -183,7 +194,7 @@ fn run(ctx: &RunCtx) -> Result<(), Violation> {
     seams::reset(ctx.run);
     let scheme = scheme();
     let observe = chance(1, 4, "observe");
-    let alpha = choose_w(&[3, 2, 3], "alpha");
+    let alpha = choose_w(&[3, 2, 3, 2], "alpha");
     let l = match choose_w(&[1, 2, 10, 5], "needle.lenclass") {
         0 => 0,
         1 => 1,
